@@ -98,6 +98,13 @@ def u_node_update(ip):
     c.oblige("calc.value_is_function_of_input_values", ip.to_U(n.f["_value"]).eq(ip.uf("F", z3.Const("va", U), z3.Const("vb", U))))
     c.oblige("calc.flag_cleared", n.f["_outdated"] is False)
     c.oblige("calc.frame", all(n.f[kk] is before[kk] for kk in before))
+    # None is a legitimate VALUE of an input (an optional argument): the calculation runs on it like on any other value
+    opt = ip.call(g.Value, [None], {"_name": "opt"})
+    n2 = g.calc("F2", a, name="n2", k=opt)
+    n2.f["_outdated"] = True
+    n2.f["_value"] = z3.Const("stale2", U)
+    ip.call(method(ip, n2, "update"), [], {})
+    c.oblige("calc.none_valued_input_is_a_value", ip.to_U(n2.f["_value"]).eq(ip.uf("F2", z3.Const("va", U), ip.to_U(None))) and n2.f["_outdated"] is False)
     t = g.calc("T", a, name="t", transient=True)
     c.oblige("transient.value_computed_on_read", ip.to_U(ip.getattr(t, "value")).eq(ip.uf("T", z3.Const("va", U))))
     tv0 = t.f["_value"]
@@ -151,6 +158,11 @@ def u_outdated(ip):
     NodeState = ip.repo(f"{N}::NodeState")
     ip.setattr(n, "state", Obj(NodeState, {"value": z3.Const("restored", U), "outdated": False, "extra": None}))
     c.oblige("state_set", n.f["_value"].eq(z3.Const("restored", U)) and n.f["_outdated"] is False)
+    # a state that went through a JAX / numpy transformation carries its flags as boolean ARRAY scalars (not `bool` instances, same truth value)
+    aflag = c.fresh("array_flag", Bool)
+    ip.setattr(n, "state", Obj(NodeState, {"value": z3.Const("restored2", U), "outdated": PyObj("bool_array_scalar", __bool__=PyFn(lambda ip_: aflag, "__bool__")), "extra": None}))
+    tr = ip.truth(ip.getattr(n, "outdated"))
+    c.oblige("state_set_with_array_valued_flag_keeps_its_truth_value", (z3.BoolVal(tr) if isinstance(tr, bool) else tr) == aflag)
     ip.call(method(ip, n, "clear_state"), [], {})
     c.oblige("clear_state", n.f["_value"] is None and n.f["_outdated"] is True)
     t = g.calc("T", name="t2", transient=True)
@@ -382,6 +394,11 @@ def from_scratch(ip, model, counting):
         elif cn == "InputGroup":
             ag = ip.repo(f"{N}::ArgGroup")
             vals[id(n_)] = ip.call(ag, [[vals[id(i)] for i in n_.f["_inputs"]], {k: vals[id(i)] for k, i in n_.f["_kwinputs"].items()}], {})
+        elif cn == "PITCalc":  # legacy probability integral transform: the cdf of its input distribution (at that distribution's input values) at the value of its evaluation node
+            dn = n_.f["_inputs"][0]
+            args = [vals[id(i)] for i in dn.f["_inputs"]]
+            kw = {k: vals[id(i)] for k, i in dn.f["_kwinputs"].items()}
+            vals[id(n_)] = ip.call(ip.call(dn.f["_distribution"], args, kw).attrs["cdf"], [vals[id(dn.f["_at"])]], {})
         elif cn == "NoDist":
             vals[id(n_)] = 0.0
         else:
@@ -649,3 +666,17 @@ import os as _os  # noqa: E402
 _DEPTH = 3 if _os.environ.get("VERIF_TIER", "quick") != "thorough" else 4
 for _s in SHAPES_C01:
     history_unit(_s, _DEPTH)
+
+
+# ------------------------------------------------------------------------------------------------------------------------------------
+# the per-function contracts of the caching protocol - flagging, the value setter, node updates, the outdated / state properties, the order of
+# full and targeted model updates, the ancestor closure - carry every property whose statement speaks about values "after updating":
+# registered again under those properties
+CACHE_CORE = ["C01.flag_outdated", "C01.value_setter", "C01.node_update", "C01.outdated_property", "C01.recursive_inputs", "C01.model_update.n2", "C01.model_update.n3",
+              "C01.failed_assignment"]
+
+
+def register_cache_core(prop):
+    from pyvc.unit import reuse
+    for src in CACHE_CORE:
+        reuse(src, src.replace("C01.", f"{prop}.cache_protocol.", 1), prop)
